@@ -35,6 +35,7 @@ EXPLANATION = (
     "of connected components with the solver's islands for a concrete network (runtime).")
 ASSUMPTIONS = ["pandapower's get_edge_table / add_edges add one edge per in-service row between indices[:, 1] and indices[:, 2]"]
 TECHNIQUE = "signature/table agreement, keyword-construction check, solver-side slot filling from component hooks"
+EXPLANATION += (' ' + '(R18.7, shared with C17 R17.7) the same for the topology functions. (R18.8, shared with C04 R4.9) pipe valves share an internal node exactly when junction and pipe agree, compared row-wise, so that the solver separates where the graph drops the edge.')
 
 
 def _sh(ok, what):
